@@ -31,7 +31,7 @@ import (
 )
 
 func main() {
-	Main("C07", runC07, map[string]func([]string){"node": childMain, "churn": churnMain})
+	Main("C07", runC07, map[string]func([]string){"node": childMain, "churn": churnMain, "notices": noticesMain})
 }
 
 // ---------- stage 1 ----------
@@ -755,11 +755,12 @@ func hexList(ds [][]byte) []string {
 
 func runC07(c *Ctx) {
 	im := NewImpl("C07", c.Seed, c.Tier)
-	im.Rule = "stage 1: JSON value trees (every field of routingUpdate/serviceAdvertisementFull x 37 value shapes, respelled keys, generated objects with unknown/duplicate members, arbitrary JSON) decoded by encoding/json into the real structs vs Model/PJson.v; stage 2: datagram sequences (corpus witnesses; every length 0..40 x type byte x phase; all 256 type bytes; field x shape substitutions; self-origin/duplicate updates; generated mixes of empty/random/garbage/data/route/advert datagrams before and after the handshake) played by a scripted peer to a real node in a child process, plus the same over real TCP and UDP listeners; connection churn: 6 peers (4 scripted, 2 real TCP) x 250 rounds of connect/handshake/messages of every kind/reject/hang-up beside a neighbour sending routing updates every 5 ms to a node with a 20 ms route-update period and a peer streaming ~400 updates/s with ever newer epochs (third-party and own origin, restarting sequences, changing lists, duplicate notices) for at least 2.5 s, liveness probed during and after; stream framing: all 65536 frame-header values on the real pkg/framer (no tail / short tail / sufficient tail + next frame), and frame headers 0,1,2,0x7ffe..0x8001,0xfffc..0xffff,random ff.. alone/short/exact/more over the TCP listener and ExternalBackend before, after, glued to and split across the handshake; non-trivial = more than the trailing no-op; distinct by transport and datagram bytes"
+	im.Rule = "stage 1: JSON value trees (every field of routingUpdate/serviceAdvertisementFull x 37 value shapes, respelled keys, generated objects with unknown/duplicate members, arbitrary JSON) decoded by encoding/json into the real structs vs Model/PJson.v; stage 2: datagram sequences (corpus witnesses; every length 0..40 x type byte x phase; all 256 type bytes; field x shape substitutions; self-origin/duplicate updates; generated mixes of empty/random/garbage/data/route/advert datagrams before and after the handshake) played by a scripted peer to a real node in a child process, plus the same over real TCP and UDP listeners; connection churn: 6 peers (4 scripted, 2 real TCP) x 250 rounds of connect/handshake/messages of every kind/reject/hang-up beside a neighbour sending routing updates every 5 ms to a node with a 20 ms route-update period and a peer streaming ~400 updates/s with ever newer epochs (third-party and own origin, restarting sequences, changing lists, duplicate notices) for at least 2.5 s, liveness probed during and after; notices: a victim with 4 dialled stream connections to a real neighbour (one closed again), a failed dial and a datagram listener whose owner reads notices; a scripted peer sends 10 (thorough 40) bursts of 8-16 well-formed data packets to the reserved service unreach, each burst about one target (per dialled connection: its remote end with service unknown / another problem / another remote service / another remote node / the same service on another node; the datagram listener x 5 problem texts; a stream listener, a missing service, reserved services, empty names), own and spoofed origin, every fourth burst interleaved with notices drawn from the whole pool; first six bursts fixed (non-matching, closed, listener, matching x2), rest a seeded permutation; after every burst: session barrier, victim pings neighbour, new ListenPacket, neighbour datagram delivered locally, neighbour ping answered, new dial + echo (12 s bounds, failed run repeated from scratch); non-trivial = the burst names a socket that exists on the victim; stream framing: all 65536 frame-header values on the real pkg/framer (no tail / short tail / sufficient tail + next frame), and frame headers 0,1,2,0x7ffe..0x8001,0xfffc..0xffff,random ff.. alone/short/exact/more over the TCP listener and ExternalBackend before, after, glued to and split across the handshake; non-trivial = more than the trailing no-op; distinct by transport and datagram bytes"
 	cf := &CaseFile{Dir: c.Out, Prop: "C07", Imports: []string{"Model.Proto"}, CaseType: "c07_case", CheckFn: "c07_check", PerShard: 120}
 	stageJSON(c, im, cf)
 	stageFramerSweep(c, im)
 	stageChurn(c, im)
+	stageNotices(c, im)
 	stagePeer(c, im, cf)
 	Must(cf.Write())
 	Must(im.Write(c.Out))
